@@ -205,3 +205,10 @@ def leaf_starting_at(module, pos):
     while leaf is not None and tuple(leaf.start_pos) != tuple(pos) and tuple(leaf.end_pos) <= tuple(pos):
         leaf = leaf.get_next_leaf()
     return leaf
+
+
+def scratch_dir(prefix):
+    """Private scratch directory, on tmpfs when available (file-system calls on the VM disk serialise across processes)."""
+    import tempfile
+    base = '/dev/shm' if os.path.isdir('/dev/shm') and os.access('/dev/shm', os.W_OK) else None
+    return tempfile.mkdtemp(prefix=prefix, dir=base)
